@@ -3,6 +3,7 @@
 from __future__ import annotations
 
 import math
+import signal
 
 import numpy as np
 
@@ -203,6 +204,32 @@ class _NoConvergence(Exception):
     pass
 
 
+class _CpuLimit(BaseException):  # BaseException: must not be swallowed by an `except Exception` on the way up
+    pass
+
+
+CPU_LIMIT_S = 30.0  # CPU seconds (not wall clock) for ONE library call; normal cost 0.01-1 s
+
+
+def _on_vtalrm(signum, frame):
+    raise _CpuLimit()
+
+
+class _cpu_limit:
+    """A library call that burns more than CPU_LIMIT_S of process CPU time (seen with seeded breaks: an integrator that
+    never gets anywhere on a corrupted equation) is abandoned and the case DISCARDED - a hang is never a violation, and
+    it must not take the worker's other results down with it."""
+
+    def __enter__(self):
+        self.old = signal.signal(signal.SIGVTALRM, _on_vtalrm)
+        signal.setitimer(signal.ITIMER_VIRTUAL, CPU_LIMIT_S)
+
+    def __exit__(self, *exc):
+        signal.setitimer(signal.ITIMER_VIRTUAL, 0.0)
+        signal.signal(signal.SIGVTALRM, self.old)
+        return False
+
+
 _MISSING = object()
 
 
@@ -219,7 +246,10 @@ def _call(ctx, subject, fn, *args, **kwargs):
     """Call real library code.  'did not converge' -> _NoConvergence (case discarded); any other exception raised
     through library frames is a violation of 'solves-admissible-problem' (all inputs here are admissible)."""
     try:
-        return fn(*args, **kwargs)
+        with _cpu_limit():
+            return fn(*args, **kwargs)
+    except _CpuLimit:
+        raise _NoConvergence(f"abandoned after {CPU_LIMIT_S:.0f} CPU-s") from None
     except Exception as exc:
         if not core.is_library_exception(exc):
             raise
@@ -317,17 +347,21 @@ def run_case(ctx, family, params):
             else:
                 sol_t = _call(ctx, esubj, gode.solve_ode_bvp, mesh.copy(), pr.fx_callback(), pr.coeff_arg(mode), bd_tf, tf, no_derivatives=False, **kw)
     except _NoConvergence as exc:
-        ctx.discard("solver did not converge: " + str(exc)[-10:])
+        ctx.discard("solver did not converge: " + str(exc)[-24:])
         return
 
     # ---------------------------------------------------------------- the returned callables
     yd = yt = _MISSING
-    if sol_d is not _MISSING:
-        yd = _call(ctx, esubj + ":direct:returned-callable", lambda: np.asarray(sol_d(xs.copy())))
-        ctx.hit("returned-callable:direct")
-    if sol_t is not _MISSING:
-        yt = _call(ctx, esubj + ":returned-callable", lambda: np.asarray(sol_t(xs.copy())))
-        ctx.hit("returned-callable:transform")
+    try:
+        if sol_d is not _MISSING:
+            yd = _call(ctx, esubj + ":direct:returned-callable", lambda: np.asarray(sol_d(xs.copy())))
+            ctx.hit("returned-callable:direct")
+        if sol_t is not _MISSING:
+            yt = _call(ctx, esubj + ":returned-callable", lambda: np.asarray(sol_t(xs.copy())))
+            ctx.hit("returned-callable:transform")
+    except _NoConvergence as exc:
+        ctx.discard("returned callable: " + str(exc)[-24:])
+        return
     if yd is not _MISSING and not ctx.check("output-shape", f"{kind}:direct", yd.shape == (order, NPTS), detail={"shape": list(yd.shape)}):
         yd = _MISSING
     if yt is not _MISSING:
